@@ -13,6 +13,7 @@ import (
 
 func init() {
 	ops["pgpsig"] = func(a []string) string { return packet.VerifParseSignature(unhx(a[0])) }
+	ops["pgpsig3"] = func(a []string) string { return packet.VerifParseSignatureV3(unhx(a[0])) }
 }
 
 // sub: one subpacket in a chosen length form (1, 2 or 5 octets; 0 = the shortest form of RFC 4880 5.2.3.1)
@@ -177,6 +178,45 @@ func genPgpSig(tier string, r *rng) {
 					emitS(m)
 				}
 			}
+		}
+	}
+	// 6b. version 2 / 3 signatures: every version octet, hashed-material length, algorithm and hash id; every truncation
+	{
+		v3 := func(ver, l, st byte, created uint32, issuer uint64, pa, ha byte, mpis []byte) []byte {
+			b := []byte{ver, l, st}
+			b = append(b, be32b(created)...)
+			b = append(b, be64b(issuer)...)
+			b = append(b, pa, ha, 0xAB, 0xCD)
+			return append(b, mpis...)
+		}
+		for _, ver := range []byte{0, 1, 2, 3, 4, 5, 255} {
+			for _, l := range []byte{0, 4, 5, 6, 255} {
+				emit("pgpsig3", hx(v3(ver, l, 0, 1700000000, 0x0123456789ABCDEF, 1, 2, mp1)))
+			}
+		}
+		for _, pa := range []byte{0, 1, 2, 3, 16, 17, 19, 22, 255} {
+			for _, ha := range []byte{0, 1, 2, 3, 8, 9, 10, 11, 12, 255} {
+				m := mp2
+				if pa == 1 || pa == 3 {
+					m = mp1
+				}
+				emit("pgpsig3", hx(v3(3, 5, 0x10, 0xFFFFFFFF, 0, pa, ha, m)))
+			}
+		}
+		for _, id := range []uint64{0, 1, 0x00A1B2C3D4E5F607, 0xFFFFFFFFFFFFFFFF} {
+			for _, ct := range []uint32{0, 1, 0x7FFFFFFF, 0x80000000, 0xFFFFFFFF} {
+				emit("pgpsig3", hx(v3(3, 5, 0x00, ct, id, 17, 2, mp2)))
+			}
+		}
+		full := v3(3, 5, 0x00, 1700000000, 0x00A1B2C3D4E5F607, 17, 2, mp2)
+		for cut := 0; cut <= len(full); cut++ {
+			emit("pgpsig3", hx(full[:cut]))
+		}
+		emit("pgpsig3", hx(append(append([]byte{}, full...), 9, 9)))
+		for k := 0; k < 200; k++ {
+			m := append([]byte{}, full...)
+			m[r.intn(len(m))] = byte(r.next())
+			emit("pgpsig3", hx(m))
 		}
 	}
 	// 7. random areas built from random subpackets
